@@ -15,6 +15,7 @@ import (
 	"kverif/cal"
 	"kverif/core"
 	"kverif/gen"
+	"kverif/stmt"
 )
 
 // C06 — output is a function of the input alone.
@@ -134,6 +135,18 @@ func (k *c06) RunCase(c *core.Ctx, i int) {
 	}
 	imp := k.importers[i%len(k.importers)]
 	cmds = append(cmds, cmdSpec{"import-" + imp.name, append(append([]string{"import", imp.name}, imp.args...), imp.file)})
+	// a generated statement (same generators as C13) for two importers per case
+	gens := stmt.All()
+	for n := 0; n < 2 && len(gens) > 0; n++ {
+		g := gens[(2*i+n)%len(gens)]
+		st := g.Generate(c.Rng(i, "stmt"+g.Short()), stmt.Opts{Hostile: n == 1, NoOddSymbols: true})
+		name := fmt.Sprintf("gen-%s-%s", g.Short(), st.FileName)
+		if err := os.WriteFile(filepath.Join(dir, name), st.File, 0o644); err != nil {
+			panic(err)
+		}
+		args := append([]string{"import", st.Importer}, st.Flags...)
+		cmds = append(cmds, cmdSpec{"import-generated-" + g.Short(), append(args, name)})
+	}
 	gmp := []string{"1", "2", "4", "16"}
 	for _, cs := range cmds {
 		outs := map[string]int{}
